@@ -28,6 +28,8 @@ pub enum Fault {
     BadHosts,
     /// a second SOA in the explicit zone file
     TwoSoa,
+    /// a symbolic link to nowhere in the zone directory / in the hosts directory
+    DanglingLink(bool),
 }
 
 #[derive(Debug, Clone, PartialEq, Eq, Hash, Serialize, Deserialize)]
@@ -104,6 +106,13 @@ fn write_config(l: &Layout, ver: usize, s: &Step) -> std::io::Result<()> {
             std::fs::write(p, e)?;
         } else {
             let _ = std::fs::remove_file(p);
+        }
+    }
+    for (dir, name, on) in [(&l.zdir, "98-dangling.zone", s.fault == Some(Fault::DanglingLink(true))), (&l.hdir, "98-dangling.hosts", s.fault == Some(Fault::DanglingLink(false)))] {
+        let p = dir.join(name);
+        let _ = std::fs::remove_file(&p);
+        if on {
+            std::os::unix::fs::symlink(l.dir.join("no-such-file"), &p)?;
         }
     }
     let bad = l.zdir.join("99-binary.zone");
@@ -207,7 +216,7 @@ impl Prop for Reloads {
                 extras: [g.bool(), g.bool(), g.chance(1, 3)],
                 hosts_extra: g.bool(),
                 fault: if g.chance(2, 5) {
-                    Some(g.pick(&[Fault::ZoneSyntax(true), Fault::ZoneSyntax(false), Fault::NotUtf8, Fault::FileIsDirectory, Fault::FileMissing, Fault::BadHosts, Fault::TwoSoa]))
+                    Some(g.pick(&[Fault::ZoneSyntax(true), Fault::ZoneSyntax(false), Fault::NotUtf8, Fault::FileIsDirectory, Fault::FileMissing, Fault::BadHosts, Fault::TwoSoa, Fault::DanglingLink(true), Fault::DanglingLink(false)]))
                 } else {
                     None
                 },
@@ -273,47 +282,70 @@ impl Prop for Reloads {
             if s.slow {
                 let c = std::ffi::CString::new(fifo.display().to_string()).unwrap();
                 if unsafe { libc::mkfifo(c.as_ptr(), 0o644) } != 0 {
+                    stop.store(true, Ordering::Relaxed);
+                    let _ = prober.join();
                     return out.fail("harness-io", "mkfifo failed");
                 }
             }
             let t_signal = Instant::now();
             server.signal(libc::SIGUSR1);
+            // (failures of the slow phase are reported after the prober thread has been stopped)
+            let mut slow_failure: Option<(&'static str, String)> = None;
             if s.slow {
                 // the load is stuck on the FIFO (or has not reached it yet):
                 // the server must keep answering, from the old configuration
                 std::thread::sleep(Duration::from_millis(30));
+                let mut verdicts: Vec<(&'static str, String)> = Vec::new();
+                let mut answered = 0u64;
                 for (k, (name, t)) in PROBES.iter().enumerate() {
                     let r = udp_exchange(addr, &query(name, *t, 0x5000 + k as u16), Duration::from_secs(3)).ok().flatten();
                     let Some(r) = r else {
-                        let _ = std::fs::remove_file(&fifo);
-                        return out.fail("unanswered-while-loading", format!("{name} got no reply within 3 s while reload {ver} was reading a slow file"));
+                        verdicts.push(("unanswered-while-loading", format!("{name} got no reply within 3 s while reload {ver} was reading a slow file")));
+                        break;
                     };
-                    let Ok(m) = rwire::decode(&r) else { return out.fail("reply-not-well-formed", format!("{name} during slow reload {ver}")) };
+                    let Ok(m) = rwire::decode(&r) else {
+                        verdicts.push(("reply-not-well-formed", format!("{name} during slow reload {ver}")));
+                        break;
+                    };
                     let ms = markers(&m);
                     if ms.is_empty() || ms.iter().any(|x| *x != good_ver) {
-                        let _ = std::fs::remove_file(&fifo);
-                        return out.fail("not-old-configuration-while-loading", format!("{name} during slow reload {ver}: versions {ms:?}, the configuration in force is {good_ver}"));
+                        verdicts.push(("not-old-configuration-while-loading", format!("{name} during slow reload {ver}: versions {ms:?}, the configuration in force is {good_ver}")));
+                        break;
                     }
-                    slow_probes += 1;
+                    answered += 1;
                 }
-                // now feed the FIFO (non-blocking open: ENXIO until the loader has opened it)
-                let deadline = Instant::now() + Duration::from_secs(20);
-                let mut fed = false;
-                while Instant::now() < deadline && server.alive() {
-                    use std::io::Write;
-                    use std::os::unix::fs::OpenOptionsExt;
-                    match std::fs::OpenOptions::new().write(true).custom_flags(libc::O_NONBLOCK).open(&fifo) {
-                        Ok(mut f) => {
-                            let _ = f.write_all(b"# slow file, nothing in it\n");
-                            fed = true;
-                            break;
+                // did the load really block?  If the 'done' line is there before
+                // the FIFO was fed, the loader passed the FIFO by (it reads
+                // regular files only, say): the probes prove nothing then
+                let (n_now, _) = count_done(&server.log_text());
+                if n_now > before {
+                    out.classes.push("slow-reload:fifo-not-read-by-loader".into());
+                } else {
+                    slow_probes += answered;
+                    slow_failure = verdicts.into_iter().next();
+                    // now feed the FIFO (non-blocking open: ENXIO until the loader has opened it)
+                    let deadline = Instant::now() + Duration::from_secs(20);
+                    let mut fed = false;
+                    while Instant::now() < deadline && server.alive() {
+                        use std::io::Write;
+                        use std::os::unix::fs::OpenOptionsExt;
+                        match std::fs::OpenOptions::new().write(true).custom_flags(libc::O_NONBLOCK).open(&fifo) {
+                            Ok(mut f) => {
+                                let _ = f.write_all(b"# slow file, nothing in it\n");
+                                fed = true;
+                                break;
+                            }
+                            Err(_) => {
+                                if count_done(&server.log_text()).0 > before {
+                                    break;
+                                }
+                                std::thread::sleep(Duration::from_millis(5));
+                            }
                         }
-                        Err(_) => std::thread::sleep(Duration::from_millis(5)),
                     }
-                }
-                if !fed {
-                    let _ = std::fs::remove_file(&fifo);
-                    return out.fail("slow-file-never-opened", format!("the loader did not open the FIFO within 20 s in step {ver}"));
+                    if !fed {
+                        out.classes.push("slow-reload:fifo-never-opened".into());
+                    }
                 }
             }
             // wait for the log line
@@ -334,6 +366,9 @@ impl Prop for Reloads {
             std::thread::sleep(Duration::from_millis(3));
             stop.store(true, Ordering::Relaxed);
             let _ = prober.join();
+            if let Some((sig, detail)) = slow_failure {
+                return out.fail(sig, detail);
+            }
             if !server.alive() {
                 return out.fail("server-died", format!("during reload {ver}: {}", server.log_text().lines().rev().take(5).collect::<Vec<_>>().join(" | ")));
             }
@@ -434,7 +469,7 @@ pub fn def() -> PropertyDef {
     PropertyDef {
         id: "C19",
         level: "fault_enumeration",
-        rule: "One `resolved --authoritative-only` process per history (shipped binary, guard off, RUST_LOG=info) configured with an explicit zone file (-z), a zone directory (-Z: one zone with 0..6000 padding records so that loading takes milliseconds, plus up to three optional zone files), a hosts file (-a) and a hosts directory (-A). A history has 3..10 steps; step v rewrites every file so that each record carries the version v in its data (TXT text, address octet, SOA serial, CNAME TTL), adds or removes the optional files, and with probability 2/5 plants one fault (syntax error in the explicit or in a directory zone file, a non-UTF-8 file, the explicit file replaced by a directory or removed, a malformed hosts line, a second SOA), then sends SIGUSR1 and waits for the 'done - success|failure' log line while a thread fires probes in a tight loop (several A records, TXT, ANY, an alias crossing two files, a hosts entry); one step in four is a slow reload: a writer-less FIFO in the hosts directory blocks the load, six probes sent meanwhile must each be answered within 3 s from the configuration in force, then the FIFO is fed. Oracle: the log says success iff the step planted no fault; every reply around the reload has markers that all agree and name the previous or the new good version; after the reload every probe shows exactly the good version (the new one after success, the previous good one after failure), optional records are present iff their file belongs to that configuration; every probe is answered and the process stays alive. Non-trivial = the history has a succeeding and a failing reload and at least one reply fell between signal and log line. Distinct by hash of the history.",
+        rule: "One `resolved --authoritative-only` process per history (shipped binary, guard off, RUST_LOG=info) configured with an explicit zone file (-z), a zone directory (-Z: one zone with 0..6000 padding records so that loading takes milliseconds, plus up to three optional zone files), a hosts file (-a) and a hosts directory (-A). A history has 3..10 steps; step v rewrites every file so that each record carries the version v in its data (TXT text, address octet, SOA serial, CNAME TTL), adds or removes the optional files, and with probability 2/5 plants one fault (syntax error in the explicit or in a directory zone file, a non-UTF-8 file, the explicit file replaced by a directory or removed, a malformed hosts line, a second SOA, a dangling symbolic link in the zone or the hosts directory), then sends SIGUSR1 and waits for the 'done - success|failure' log line while a thread fires probes in a tight loop (several A records, TXT, ANY, an alias crossing two files, a hosts entry); one step in four is a slow reload: a writer-less FIFO in the hosts directory blocks the load, six probes sent meanwhile must each be answered within 3 s from the configuration in force, then the FIFO is fed. Oracle: the log says success iff the step planted no fault; every reply around the reload has markers that all agree and name the previous or the new good version; after the reload every probe shows exactly the good version (the new one after success, the previous good one after failure), optional records are present iff their file belongs to that configuration; every probe is answered and the process stays alive. Non-trivial = the history has a succeeding and a failing reload and at least one reply fell between signal and log line. Distinct by hash of the history.",
         assumptions: vec!["timing of probes relative to the swap is the operating system's (not controlled); the count of replies inside the reload window is reported"],
         parts: vec![Box::new(Reloads)],
         budget_s: |t| t.pick(1200, 10_800),
